@@ -33,10 +33,12 @@ PLAN = {
         "engines": lambda tier: [
             _e("script", "indep/loomdrv.py", "c07", also_build=[("loom", "loommc"), ("release", "corpusmc")]),
             _e("release", "stressmc", "c07"),
+            dict(_e("proto", "protomc", "check", also_build=[("loom", "loommc")]), side=True),
         ],
         "assumptions": [
             "loom explores the interleavings of mutex/condvar/thread operations of the real compression.rs and file.rs (built with --cfg jubako_verif_loom: loom Mutex/Condvar, loom thread instead of the rayon pool, 2-byte chunks); Arc stays std's (no scheduling point, sound); sequentially consistent exploration, preemption-bounded (bound completed reported per configuration)",
             "engine B runs the real ContentPack reader under loom (cluster cache of capacity 1/2, cluster RwLock, decoder threads, shared FileSource; 2 readers, at most 3 decoder threads because of loom's 5-thread limit); engine B2 runs the real Container under loom (hook H6: a scheduling point at every OnceLock operation of the pack slots, the entry/value store caches and the check-info cells; directory pack RwLock as loom's): two threads making the first accesses to a freshly opened 5-file container; contents of a few bytes (loom's 16-bit version counters); the free-running stress engine (stressmc, sampling) is kept for volume only",
+            "engine M: the abstract model of the length-publication protocol (harness-proto, stateright + an own breadth-first search whose state counts must agree) is explored exhaustively WITHOUT preemption bound for 1..3 chunks x 1..3 readers; it is bound to the code by replaying every distinct event trace of the real compression.rs under loom (hook H7) as a path of the model: a trace the model does not accept makes the engine non-exhaustive (cap: the model does not describe this implementation), an operation outcome the property forbids is a violation; the model abstracts byte values (ranges only) and is sequentially consistent",
             "weak-memory effects beyond what loom models are out of reach",
         ],
     },
